@@ -153,7 +153,7 @@ pub fn run(ctx: &mut RunCtx) {
         "triples",
         "triples of same-kind values generated with boundary weighting and constructed relations (equal, adjacent, prefix, sign flip); all 6 ordered pairs checked; non-trivial = at least two distinct values in the triple",
         n,
-        triple(),
+        triple,
         |t: &Triple, obs: &mut Obs| {
             let distinct = value_cmp(&t.a, &t.b) != Some(Ordering::Equal) || value_cmp(&t.b, &t.c) != Some(Ordering::Equal);
             obs.set_nontrivial(distinct);
@@ -170,7 +170,7 @@ pub fn run(ctx: &mut RunCtx) {
         0,
         vec![Lattice::Bools, Lattice::FloatHi16, Lattice::FloatExpLo, Lattice::IntLattice],
         true,
-        Just(Lattice::Bools),
+        || Just(Lattice::Bools),
         |l: &Lattice, obs: &mut Obs| {
             let vals: Vec<PV> = match l {
                 Lattice::Bools => vec![PV::Bool(false), PV::Bool(true), PV::Bool(false)],
